@@ -21,9 +21,14 @@
              zip, concat, repartition are defined through that order)
      "mset"  a multiset: order not promised (distinct, frequencies, foldby, join,
              product, and fold with a concatenating binop: the order in which
-             partial results are combined is the implementation's)
-     "grp"   groupby: one <<key, members>> pair per key, members as a multiset
-     "dkey"  distinct(key=): one representative per key (which one is free)
+             partial results are combined is the implementation's).  WHICH elements
+             are in the result is content, not order: distinct(key=) keeps the FIRST
+             element (in sequence order) of every key class, as toolz.unique does
+     "grp"   groupby: one <<key, members>> pair per key, members as a multiset (the
+             order inside a group depends on the shuffle and is not promised)
+     "topkkey" topk(k, key=) with a key that has ties: the keys of the result are the k
+             largest keys in descending order and the result is a sub-multiset of the
+             bag; which of several elements with equal keys is kept is free
      "fsort" frequencies(sort=True): the multiset, counts non-increasing
      "int" "bool" "rat" (exact <<num, den>>)  scalar results
      "rat2"  std: the SQUARE of the result is the rational
@@ -49,6 +54,7 @@ SeqMin(s) == CHOOSE x \in {s[i] : i \in DOMAIN s} : \A j \in DOMAIN s : s[j] >= 
 CountOf(s, x) == Cardinality({i \in DOMAIN s : s[i] = x})
 \* equal as multisets
 SameBag(a, b) == Len(a) = Len(b) /\ \A i \in DOMAIN a : CountOf(a, a[i]) = CountOf(b, a[i])
+SubBagOf(a, b) == \A i \in DOMAIN a : CountOf(a, a[i]) <= CountOf(b, a[i])
 Prefix(s, k) == SubSeq(s, 1, MinI(k, Len(s)))
 
 \* the subsequence at the index set I
@@ -87,15 +93,24 @@ Filter(p, s)   == SelectSeq(s, LAMBDA x : Pred(p, x))
 Remove(p, s)   == SelectSeq(s, LAMBDA x : ~Pred(p, x))
 Flatten(ns)    == Flat(ns)
 Distinct(s)    == FirstOccs(s)
+\* distinct(key=): the first element of every key class; ks[i] is the key of els[i]
+DistinctBy(ks, els) == PickFrom(els, {i \in DOMAIN els : \A j \in 1..(i - 1) : ks[j] # ks[i]}, 1)
+\* the keyed variants: "key" x % 2 on the naturals, "key0" the first field of the pairs (a non-callable key),
+\* "keylen" the length of the nested lists - none of them injective on the data
+KeySeq(w, els) == CASE w = "key"    -> [i \in DOMAIN els |-> els[i] % 2]
+                    [] w = "key0"   -> [i \in DOMAIN els |-> els[i][1]]
+                    [] w = "keylen" -> [i \in DOMAIN els |-> Len(els[i])]
+DistinctW(w, els) == DistinctBy(KeySeq(w, els), els)
 Keys(m, s)     == FirstOccs([i \in DOMAIN s |-> KeyOf(m, s[i])])
 Frequencies(s) == LET d == FirstOccs(s) IN [i \in DOMAIN d |-> <<d[i], CountOf(s, d[i])>>]
 TopK(k, s)     == Prefix(SortDesc(s), k)
 BottomK(k, s)  == Prefix(SortAsc(s), k)                               \* topk(k, key = negation)
 Members(m, s, key) == SelectSeq(s, LAMBDA x : KeyOf(m, x) = key)
 GroupBy(m, s)  == LET ks == Keys(m, s) IN [i \in DOMAIN ks |-> <<ks[i], Members(m, s, ks[i])>>]
+SumSq(s) == SumS([i \in DOMAIN s |-> s[i] * s[i]])
+FoldOf(w, mem) == CASE w = "cnt" -> Len(mem) [] w = "sq" -> SumSq(mem) [] OTHER -> SumS(mem)
 FoldBy(w, m, s) == LET ks == Keys(m, s) IN
-                   [i \in DOMAIN ks |-> <<ks[i], IF w = "cnt" THEN Len(Members(m, s, ks[i]))
-                                                 ELSE SumS(Members(m, s, ks[i]))>>]
+                   [i \in DOMAIN ks |-> <<ks[i], FoldOf(w, Members(m, s, ks[i]))>>]
 \* toolz.join(on_other, other, on_self, self): pairs <<other element, self element>> with equal keys
 Join(m, s, t)  == Flat([i \in DOMAIN s |->
                         LET hit == SelectSeq(t, LAMBDA y : KeyOf(m, y) = KeyOf(m, s[i]))
@@ -111,7 +126,6 @@ Accumulate(w, hasinit, c, s) ==
   IF hasinit THEN <<c>> \o AccFrom(w, c, s)
   ELSE IF s = <<>> THEN <<>> ELSE <<Head(s)>> \o AccFrom(w, Head(s), Tail(s))
 
-SumSq(s) == SumS([i \in DOMAIN s |-> s[i] * s[i]])
 Mean(s) == RNorm(SumS(s), Len(s))                                                     \* s # <<>>
 \* sum((x - mean)^2) / (n - ddof)  =  (n * sum(x^2) - sum(x)^2) / (n * (n - ddof))
 Var(s, ddof) == RNorm(Len(s) * SumSq(s) - SumS(s) * SumS(s), Len(s) * (Len(s) - ddof))   \* Len(s) > ddof
@@ -166,19 +180,26 @@ Expected(o, parts) ==
          IF o.w = "pair" THEN R("seq", [i \in DOMAIN s |-> Pairs(s)[i][o.p + 1]])
          ELSE R("seq", [i \in DOMAIN s |-> IF Len(Nest(s)[i]) > o.p THEN Nest(s)[i][o.p + 1] ELSE 9])   \* default = 9
     [] o.op = "flatten"  -> R("seq", Flatten(Nest(s)))
-    [] o.op = "distinct" -> IF o.w = "key" THEN R("dkey", Keys(2, s)) ELSE R("mset", Distinct(s))
+    [] o.op = "distinct" ->
+         R("mset", CASE o.w = ""       -> Distinct(s)
+                     [] o.w = "key"    -> DistinctW("key", s)
+                     [] o.w = "key0"   -> DistinctW("key0", Pairs(s))
+                     [] o.w = "keylen" -> DistinctW("keylen", Nest(s)))
     [] o.op = "frequencies" -> R(IF o.w = "sort" THEN "fsort" ELSE "mset", Frequencies(s))
-    [] o.op = "topk"     -> R("seq", IF o.w = "neg" THEN BottomK(o.p, s) ELSE TopK(o.p, s))
+    [] o.op = "topk"     ->
+         IF o.w = "half" THEN R("topkkey", TopK(o.p, [i \in DOMAIN s |-> s[i] \div 2]))       \* key = x // 2: ties
+         ELSE R("seq", IF o.w = "neg" THEN BottomK(o.p, s) ELSE TopK(o.p, s))
     [] o.op = "fold"     ->
          (CASE o.w = "add"  -> IF s = <<>> THEN Err ELSE R("int", SumS(s))      \* reduce(add, []) raises
             [] o.w = "add0" -> R("int", SumS(s))
             [] o.w = "cnt"  -> R("int", n)
+            [] o.w = "sq"   -> R("int", SumSq(s))                                  \* binop acc + x*x, combine +
             [] o.w = "cat"  -> R("mset", s))
     [] o.op = "reduction" ->
          (CASE o.w = "sum"  -> R("int", SumS(s))
             [] o.w = "len"  -> R("int", n)
             [] o.w = "uniq" -> R("seq", SortAsc(Distinct(s))))
-    [] o.op = "foldby"   -> R("mset", FoldBy(IF o.w = "cnt" THEN "cnt" ELSE "add", o.p, s))
+    [] o.op = "foldby"   -> R("mset", FoldBy(o.w, o.p, s))
     [] o.op = "groupby"  -> R("grp", GroupBy(o.p, s))
     [] o.op = "join"     -> R("mset", Join(o.p, s, t))
     [] o.op = "product"  -> R("mset", Product(s, t))
@@ -205,9 +226,9 @@ Expected(o, parts) ==
 IsGroupsOf(got, want) ==
   /\ Len(got) = Len(want)
   /\ \A i \in DOMAIN want : \E j \in DOMAIN got : got[j][1] = want[i][1] /\ SameBag(got[j][2], want[i][2])
-IsDistinctBy(got, keys, m, s) ==
-  /\ SameBag([i \in DOMAIN got |-> KeyOf(m, got[i])], keys)
-  /\ \A i \in DOMAIN got : \E j \in DOMAIN s : s[j] = got[i]
+IsTopByKey(got, keys, s) ==
+  /\ [i \in DOMAIN got |-> got[i] \div 2] = keys
+  /\ SubBagOf(got, s)
 
 Mismatch(e, obs, s) ==
   IF e.k = "err" THEN (IF obs.raised THEN {} ELSE {"ErrorExpected"})
@@ -215,7 +236,7 @@ Mismatch(e, obs, s) ==
   ELSE IF CASE e.k \in {"seq", "int", "bool", "rat", "rat2"} -> obs.v = e.v
             [] e.k = "mset"  -> SameBag(obs.v, e.v)
             [] e.k = "grp"   -> IsGroupsOf(obs.v, e.v)
-            [] e.k = "dkey"  -> IsDistinctBy(obs.v, e.v, 2, s)
+            [] e.k = "topkkey" -> IsTopByKey(obs.v, e.v, s)
             [] e.k = "fsort" -> SameBag(obs.v, e.v) /\ \A i \in 1..(Len(obs.v) - 1) : obs.v[i][2] >= obs.v[i + 1][2]
             [] e.k = "rep"   -> obs.v = e.v.s /\ obs.np = e.v.np
        THEN {} ELSE {"Content"}
